@@ -196,6 +196,25 @@ def run(tier, seed):
                 viol.append(dict(kind="oracle", op=job["op"], operand_kinds=job["kinds"], key=classify_key(job),
                                  what="a satisfying assignment keeps the operands but gives the result another value" if not e.get("nonboolean") else "a boolean-typed result can be assigned a value other than 0/1",
                                  case=dict(cfg=job["cfg"], prog=job["prog"], ins=job["ins"]), honest_value=e["honest_value"], forged_value=e["alt_value"], forged_witness=e["alt"]))
+    # after a caught exception the following statements record exactly the constraints they record in a fresh program
+    # (a region that was left by an exception leaves nothing behind that weakens later constraints)
+    fresh = {}
+    for job, rec in zip(jobs, recs):
+        if not job["op"].startswith("after-caught-exception") or rec["exn"] is not None: continue
+        if not rec.get("caught"):
+            continue                      # nothing was raised on this tree for this scenario
+        follow = job["prog"][-2:]
+        key = json.dumps([job["cfg"], follow, job["ins"]])
+        if key not in fresh:
+            tw = dict(cfg=job["cfg"], prog=[s_ for s_ in job["prog"] if s_[0] == "input"] + follow, ins=job["ins"], id=0)
+            r2 = progs.run_impl_cases([tw])[0]
+            fresh[key] = (r2["ncons"], r2["nvars"] - sum(1 for s_ in tw["prog"] if s_[0] == "input"))
+        pc, en, nc0, nv0 = rec["caught"][-1]
+        got = (rec["ncons"] - nc0, rec["nvars"] - nv0)
+        if got != fresh[key]:
+            viol.append(dict(kind="oracle", op=job["op"], operand_kinds=job["kinds"], key=job["op"] + ":constraints-differ",
+                             what="after an exception raised inside a region was caught, the next statements record %d constraints / %d new variables; in a fresh program they record %d / %d (state left behind by the aborted region)" % (got + fresh[key]),
+                             case=dict(cfg=job["cfg"], prog=job["prog"], ins=job["ins"]), caught=en))
     # dedupe: keep 2 per key
     seen = collections.Counter(); kept = []
     for v in viol:
